@@ -378,6 +378,54 @@ theorem round2_one_from_each_peer (c : Cfg) (hself : 1 ≤ c.self ∧ c.self ≤
     unfold collect2
     simp [hc]
 
+/-- **Overlapping deliveries never queue two messages of one sender.** However the `enter`
+(duplicate check *and* mark, one atomic step) and `handover` (validation, channel send) steps of any
+number of concurrent callback invocations interleave, the queue holds at most one message per
+sender. What must be atomic is check-and-mark; holding the lock across the hand-over is not needed
+for this (the code does hold it). The variant that marks only at hand-over violates it — see the
+example with `cstepLate`. Tied to the code by the `race` op of the `frostp2p` stream. -/
+theorem overlapping_no_duplicate_sender (c : Cfg) (commits : Option ℕ) (evs : List CEv) :
+    ((crun c commits {} evs).queue.map (·.sender)).Nodup := by
+  have h := crun_inv c commits evs {} ⟨by simp, by simp⟩
+  have hsl : (crun c commits {} evs).queue.Sublist
+      ((crun c commits {} evs).queue ++ (crun c commits {} evs).inside) := List.sublist_append_left _ _
+  exact h.nodup.sublist (hsl.map _)
+
+/-- **Every entry of a message is validated.** A message is queued only if *each* of its entries
+carries the sender as source, the required target, a validator index in range (and, in round 1,
+`t` commitments): one bad entry at any position makes the whole message be refused. -/
+theorem every_entry_validated (c : Cfg) (sender tgt : ℕ) (commits : Option ℕ) (es : List Entry)
+    (h : firstErr c sender tgt commits es = none) (e : Entry) (he : e ∈ es) :
+    e.key.sourceID = sender ∧ e.key.targetID = tgt ∧ e.key.valIdx < c.nv ∧
+      ∀ t, commits = some t → e.commits = t := by
+  induction es with
+  | nil => simp at he
+  | cons x rest ih =>
+    unfold firstErr at h
+    by_cases h1 : x.key.sourceID ≠ sender
+    · simp [h1] at h
+    · by_cases h2 : x.key.targetID ≠ tgt
+      · simp [h1, h2] at h
+      · by_cases h3 : x.key.valIdx ≥ c.nv
+        · simp [h1, h2, h3] at h
+        · simp only [h1, h2, h3, if_false] at h
+          have hx : x.key.sourceID = sender ∧ x.key.targetID = tgt ∧ x.key.valIdx < c.nv :=
+            ⟨by simpa using h1, by simpa using h2, by omega⟩
+          cases commits with
+          | none =>
+            simp only at h
+            rcases List.mem_cons.mp he with rfl | hr
+            · exact ⟨hx.1, hx.2.1, hx.2.2, fun t ht => by cases ht⟩
+            · exact ih h hr
+          | some t =>
+            simp only at h
+            by_cases h4 : x.commits ≠ t
+            · simp [h4] at h
+            · simp only [h4, if_false] at h
+              rcases List.mem_cons.mp he with rfl | hr
+              · exact ⟨hx.1, hx.2.1, hx.2.2, fun t' ht => by cases ht; simpa using h4⟩
+              · exact ih h hr
+
 end CharonV.FrostP2P
 
 /-! ### The executable scalar layer used by the correspondence driver (`Model/Fr.lean`) -/
@@ -498,5 +546,21 @@ the loop of a 3-node cluster return (this is what the callbacks' de-duplication 
 example : (match collect1 3 [(true, genCast1 cEx 1), (false, genP2P cEx 2), (false, genP2P cEx 3),
       (true, genCast1 cEx 2), (true, genCast1 cEx 2)] [] [] with
     | .done cs _ => cs.map (·.sender) | _ => []) = [1, 2, 2] := by decide
+
+open CharonV.FrostP2P in
+/-- two overlapping deliveries of node 2's cast: with atomic check-and-mark one is queued … -/
+example : (crun cEx (some 2) {} [.enter (genCast1 cEx 2), .enter (genCast1 cEx 2),
+    .handover (genCast1 cEx 2), .handover (genCast1 cEx 2)]).queue = [genCast1 cEx 2] := by decide
+
+open CharonV.FrostP2P in
+/-- … with the mark deferred to the hand-over both are queued. -/
+example : ([CEv.enter (genCast1 cEx 2), .enter (genCast1 cEx 2), .handover (genCast1 cEx 2),
+    .handover (genCast1 cEx 2)].foldl (cstepLate cEx (some 2)) {}).queue
+    = [genCast1 cEx 2, genCast1 cEx 2] := by decide
+
+open CharonV.FrostP2P in
+/-- a share message whose *second* share is addressed to node 3 is refused as a whole. -/
+example : (p2pCb { cEx with nv := 2 } {} { sender := 2, entries := [{ key := ⟨0, 2, 1⟩ }, { key := ⟨1, 2, 3⟩ }] }).2
+    = .err .target := by decide
 
 end Examples
